@@ -51,6 +51,54 @@ type verifAppErrPtr struct {
 func (e *verifAppErrPtr) Code() int     { return e.code }
 func (e *verifAppErrPtr) Error() string { return e.msg }
 
+// errors of the kinds the statement names that ALSO expose a cause chain (Cause() as in oryx errors, Unwrap() as in the standard
+// library) ending in an error of another kind with another code/status: the response carries the error's OWN code or status
+type verifAppErrCause struct {
+	code  int
+	msg   string
+	cause error
+}
+
+func (e *verifAppErrCause) Code() int     { return e.code }
+func (e *verifAppErrCause) Error() string { return e.msg }
+func (e *verifAppErrCause) Cause() error  { return e.cause }
+func (e *verifAppErrCause) Unwrap() error { return e.cause }
+
+type verifStatusErrCause struct {
+	msg    string
+	status int
+	cause  error
+}
+
+func (e *verifStatusErrCause) Error() string { return e.msg }
+func (e *verifStatusErrCause) Status() int   { return e.status }
+func (e *verifStatusErrCause) Cause() error  { return e.cause }
+func (e *verifStatusErrCause) Unwrap() error { return e.cause }
+
+// verifOtherKind: an error of a code-carrying or status-carrying kind whose code/status differs from avoid
+func verifOtherKind(r *vrand.Rand, avoid int) (error, string) {
+	for {
+		code := genCode(r)
+		if code == avoid {
+			continue
+		}
+		switch r.Intn(4) {
+		case 0:
+			return oh.SystemError(code), fmt.Sprintf("SystemError(%d)", code)
+		case 1:
+			return oh.SystemComplexError{Code: oh.SystemError(code), Message: "inner"}, fmt.Sprintf("SystemComplexError{%d}", code)
+		case 2:
+			return verifAppErr{code, "inner"}, fmt.Sprintf("AppError{%d}", code)
+		default:
+			st := r.Range(400, 599)
+			if st == avoid {
+				continue
+			}
+			return &verifStatusErr{"inner", st}, fmt.Sprintf("Status(%d)", st)
+		}
+	}
+}
+
 type verifPlainErr struct{ msg string }
 
 func (e verifPlainErr) Error() string { return e.msg }
@@ -364,6 +412,7 @@ func genCase(r *vrand.Rand, i int) *vcase {
 		c.callback = cbPool[r.Intn(len(cbPool))]
 	}
 	c.postForm = r.Chance(1, 6)
+	causeDesc := ""
 	switch c.kind {
 	case kSuccess:
 		sh := map[string]bool{}
@@ -419,7 +468,16 @@ func genCase(r *vrand.Rand, i int) *vcase {
 	case kApp:
 		c.code = genCode(r)
 		msg := genStr(r)
-		if r.Bool() {
+		if r.Chance(1, 3) {
+			cause, cd := verifOtherKind(r, c.code)
+			if r.Bool() {
+				cause = &verifAppErrCause{c.code + 1, "middle", cause} // a chain of two
+				cd = "AppError->" + cd
+			}
+			c.err = &verifAppErrCause{c.code, msg, cause}
+			c.shape = "with-cause:" + strings.FieldsFunc(cd, func(x rune) bool { return x == '(' || x == '{' })[0]
+			causeDesc = " cause=" + cd
+		} else if r.Bool() {
 			c.err = verifAppErr{c.code, msg}
 			c.shape = "value"
 		} else {
@@ -427,7 +485,7 @@ func genCase(r *vrand.Rand, i int) *vcase {
 			c.shape = "pointer"
 		}
 		c.handler = oh.Error(nil, c.err)
-		c.desc = fmt.Sprintf("Error(AppError{%d,%q})", c.code, msg)
+		c.desc = fmt.Sprintf("Error(AppError{%d,%q}%s)", c.code, msg, causeDesc)
 	case kPlain, kPlainStatus:
 		msg := genStr(r)
 		if r.Chance(1, 6) {
@@ -444,6 +502,12 @@ func genCase(r *vrand.Rand, i int) *vcase {
 			}
 			c.err = &verifStatusErr{msg, c.status}
 			c.shape = "Status()"
+			if r.Chance(1, 3) {
+				cause, cd := verifOtherKind(r, c.status)
+				c.err = &verifStatusErrCause{msg, c.status, cause}
+				c.shape = "Status() with-cause:" + strings.FieldsFunc(cd, func(x rune) bool { return x == '(' || x == '{' })[0]
+				causeDesc = " cause=" + cd
+			}
 		} else {
 			switch r.Intn(4) {
 			case 0:
@@ -463,7 +527,7 @@ func genCase(r *vrand.Rand, i int) *vcase {
 		_, jerr := decodeNum([]byte(c.err.Error()))
 		c.jsonMsg = jerr == nil
 		c.handler = oh.Error(nil, c.err)
-		c.desc = fmt.Sprintf("Error(plain %s %q status=%d)", c.shape, c.err.Error(), c.status)
+		c.desc = fmt.Sprintf("Error(plain %s %q status=%d%s)", c.shape, c.err.Error(), c.status, causeDesc)
 	}
 	// a third of the cases go through the direct-write wrappers (WriteData / Success / WriteError / WriteCplxError)
 	if r.Chance(1, 3) {
@@ -714,6 +778,7 @@ func TestVerif_C19_Envelope(t *testing.T) {
 	require("plain_error_status_ok", int64(n/20))
 	require("unmarshalable_answered_with_error_status", int64(n/50))
 	require("badutf8_values", int64(n/50))
+	require("errors_with_a_cause_of_another_kind", int64(n/50))
 
 	var cases sync.Map
 	var loopViol sync.Map
@@ -777,6 +842,9 @@ func TestVerif_C19_Envelope(t *testing.T) {
 			m.Case()
 			m.Classf("%s/%s/cb%d/loop%d", kindNames[c.kind], c.shape, b2i(c.callback != ""), b2i(loop))
 			m.Count("kind_"+kindNames[c.kind], 1)
+			if strings.Contains(c.shape, "with-cause") {
+				m.Count("errors_with_a_cause_of_another_kind", 1)
+			}
 			if strings.Contains(c.shape, "badutf8") {
 				m.Count("badutf8_values", 1)
 			}
